@@ -39,6 +39,7 @@ PATCHED_PTR_SWAP_SHARED = True   # C04_ptr_swap_shared.diff: pointer_array::swap
 PATCHED_ENC_PREPARE = True       # C04_enc_prepare.diff: encode_array::prepare zeroes the content (array::set(len) assigns zeros)
 PATCHED_ENC_SHIFT = True         # C04_enc_shift.diff: encode_array::shift(0) reads in front of the data, zeroes what it moved,
 #                                   writes shared data in place (precedence of `max = length() <= len`, memcpy, array::set)
+PATCHED_RAW_PUSH_CONSUMED = True   # C04_raw_push_consumed.diff (array_push.c, raw mode): a push behind consumed data (after shift(n)) overwrote the live bytes
 PATCHED_ENC_PUSHMSG = True       # C04_enc_push_message.diff: encode_array::push(message) never advances (no end) and skips the
 #                                   continuation parts
 _SWITCHES = ("ENC_PREPARE", "ENC_SHIFT", "ENC_PUSHMSG", "RESERVE_NEG", "RESERVE_KEEP", "RESERVE_FAIL", "MAP_GET", "MAP_SET", "SWAP_BOUNDS", "PTR_SWAP_SHARED")
@@ -796,7 +797,7 @@ class C04(DiffProperty):
         cons = n - d - sc
         if o[0] == "epush":
             ln = 0 if o[2] == "-" else len(o[2]) // 2
-            if ln and cons:
+            if ln and cons and not PATCHED_RAW_PUSH_CONSUMED:
                 return False
             if ln: v[e] = (n + ln, d, sc + ln)
         elif o[0] == "efin":
